@@ -78,15 +78,19 @@ def CurrentPulse(base, t_off):
     return terminal_currents
 
 
-def CurrentSwitch(phases, times):
-    """Piecewise-constant balanced currents: phases[i] for times[i-1] <= t < times[i]."""
+def CurrentSwitch(phases, times, persistent=False):
+    """Piecewise-constant balanced currents: phases[i] for times[i-1] <= t < times[i].
+    persistent=True: the function hands out ITS OWN pre-built dicts (as `lambda t: levels[i]` does), not copies."""
     phases = [dict(p) for p in phases]
+    pristine = [dict(p) for p in phases]
     times = list(times)
 
     def terminal_currents(t):
         i = sum(1 for x in times if t >= x)
-        return dict(phases[i])
+        return phases[i] if persistent else dict(phases[i])
 
+    terminal_currents.phases = phases
+    terminal_currents.pristine = pristine
     return terminal_currents
 
 
@@ -161,7 +165,7 @@ def build_drive(d, device, options):
     elif c["kind"] == "pulse":
         tc = CurrentPulse(c["values"], c["t_off"])
     elif c["kind"] == "switch":
-        tc = CurrentSwitch(c["phases"], c["times"])
+        tc = CurrentSwitch(c["phases"], c["times"], persistent=bool(c.get("persistent")))
     else:
         raise ValueError(c["kind"])
     if callable(tc) and c.get("form", "function") != "function":
@@ -348,6 +352,8 @@ def run_sim(spec, listeners=(), failpoints=None, device=None, seed_solution=None
     rr.mutated = []
     if tc_before is not None and tc != tc_before:
         rr.mutated.append({"input": "terminal_currents dict", "before": {k: float(v) for k, v in tc_before.items()}, "after": {k: float(v) for k, v in tc.items()}})
+    if callable(tc) and getattr(tc, "pristine", None) is not None and tc.phases != tc.pristine:
+        rr.mutated.append({"input": "dicts returned by the terminal_currents callable", "before": [dict(p) for p in tc.pristine[:2]], "after": [dict(p) for p in tc.phases[:2]]})
     opt_after = _dc.asdict(options)
     ch = [k for k in opt_before if opt_before[k] != opt_after.get(k)]
     if ch:
